@@ -169,6 +169,7 @@ reg = {
         "x_tracker.rs": "src/transaction_tracker.rs",
         "x_unpersisted.rs": "src/tree_store/page_store/page_manager.rs",
         "x_spstate.rs": "src/transactions.rs",
+        "x_leafmut.rs": "src/tree_store/btree_base.rs",
     },
     # bounded Kani twins of Verus obligations: run only after a Verus refutation, to look for a concrete failing input
     "twins": {
@@ -206,6 +207,8 @@ NATIVE = {
     "X-unp3": {"id": "X-unp3", "test": "xb_unpersisted_contracts_depth3", "bound": "every sequence of <= 3 calls of the 11 mutating UnpersistedState operations over 3 pages and transaction ids {1,2,3}; per-call contract with full frame against a ghost model, representation invariant (allocation_txn is the reverse index of allocations, no empty records, post_commit_allocations subset of pages), allocations_after / data_freed_in_range(all bounds) / pages_pending_free / contains compared after every call"},
     "X-unp4": {"id": "X-unp4", "test": "xb_unpersisted_contracts_depth4", "bound": "same, <= 4 calls over 2 pages", "tier": "thorough"},
     "X-spstate": {"id": "X-spstate", "test": "xb_savepoint_state_contracts", "bound": "every combination of <= 3 persistent savepoints on 2 transactions (shared transactions included), every subset recorded as created / deleted (both orders) / invalidated, apply_on_commit and apply_on_abort: validity of every savepoint, the exact multiset of pins left in the tracker, and the emptied local state"},
+    "X-leafmut4": {"id": "X-leafmut4", "test": "xb_leaf_mutator_contracts_n4", "bound": "every leaf of <= 4 pairs with key and value lengths 0..=2 (fixed width: 1), all four fixed/variable width combinations, with and without slack in the page; LeafMutator::insert at every position with key/value lengths 0..=3, remove at every position, replace at every position with lengths 0..=3, remove_indices with every non-empty proper index subset; afterwards the REAL LeafAccessor reads exactly the expected pair sequence and the first total_length() bytes equal the leaf RawLeafBuilder writes for it"},
+    "X-leafmut5": {"id": "X-leafmut5", "test": "xb_leaf_mutator_contracts_n5", "bound": "same, <= 5 pairs", "tier": "thorough"},
     "X-trk-ser": {"id": "C14-X-trk-ser", "test": "x14_region_tracker_roundtrip", "bound": "1..130 regions, 8 mark patterns"},
 }
 P["C14"] = {
@@ -274,10 +277,11 @@ P["C10"] = {
               {"unit": "bigpair", "functions": ["MutateHelper::insert_beside_large_value"]}],
     "kani": [K["C10-F1"], K["C10-F2"], K["C10-F3"], K["C10-F4"], K["C10-F6a"], alias("C11-R3", "C10-F6b"), alias("C06-K2", "C10-F6c"),
              alias("C07-K1s", "C10-F6d"), alias("C04-L1f", "C10-P1f"), alias("C04-L1v", "C10-P1v")],
-    "assumptions": ["K1 (cow unit): a branch page is the sequence of its (child page, checksum) pointers; BranchBuilder::build allocates a fresh page of this transaction holding exactly the pointers pushed (built_children, a function of the page number); get_page_mut records what is written through the handle against the page; the separator keys are not modelled"],
+    "native": [dict(NATIVE["X-leafmut4"], id="C10-X-leafmut4")],
     "explanation": "(V) checksum discipline of the mutator, verified on the REAL MutateHelper::replace_branch_child and finalize_branch_builder: a redirected child pointer always carries the DEFERRED checksum (recomputed at commit) - in place only on a page this transaction allocated, otherwise in a copy that differs from the original in exactly that pointer; a branch reduced to one child hands that child up WITH the checksum it carried, and when that child is merged into the sibling branch (fragment of apply_child_deletion_result) it is carried over with that same checksum on the correct side; an under-full branch is handed up unbuilt with children, checksums and keys untouched. (S) separator bounds on the REAL fast path of insert_helper for a leaf holding one huge pair: the two leaves are handed up in key order, the untouched one with its old checksum and the new one DEFERRED, and left <= separator < right (given branch_separator's contract, proved for the built-in key types in unit types_sep). Kernel = format conformance: every fixed-size encoder (page number, tree header, commit slot, database header, freed-page key, allocator-state key, savepoint record, page list) writes exactly the byte layout of docs/design.md (offsets are literals transcribed from the document, not the code's constants) - complete, loop-free; leaf pages: offsets tables, entries and the checksummed prefix - bounded.",
     "not_decided": "strictly increasing keys, separator bounds, equal depth, stored counts, no page referenced twice (invariants of btree_mutator.rs over histories); branch pages (probed: too expensive for CBMC); XXH3-128 being XXH3-128",
-    "assumptions": ["docs/design.md lists '40 bytes: padding' before the transaction id of a commit slot; the fields then sum to 136 bytes, not 128. The oracle uses 32 bytes of padding (transaction id at 104, checksum at 112), the only reading consistent with the stated slot size; the document, not the code, is off by 8."],
+    "assumptions": ["K1 (cow unit): a branch page is the sequence of its (child page, checksum) pointers; BranchBuilder::build allocates a fresh page of this transaction holding exactly the pointers pushed (built_children, a function of the page number); get_page_mut records what is written through the handle against the page; the separator keys are not modelled",
+                    "docs/design.md lists '40 bytes: padding' before the transaction id of a commit slot; the fields then sum to 136 bytes, not 128. The oracle uses 32 bytes of padding (transaction id at 104, checksum at 112), the only reading consistent with the stated slot size; the document, not the code, is off by 8."],
 }
 P["C04"] = {
     "level": "proof",
@@ -288,9 +292,10 @@ P["C04"] = {
               {"unit": "rootins", "functions": ["MutateHelperI::insert"]},
               {"unit": "bigpair", "functions": ["MutateHelper::insert_beside_large_value"]}],
     "kani": [K["C04-T1"], K["C04-L1f"], K["C04-L1v"], K["C04-L2"]],
+    "native": [dict(NATIVE["X-leafmut4"], id="C04-X-leafmut4"), dict(NATIVE["X-leafmut5"], id="C04-X-leafmut5")],
     "assumptions": ["D1 (rootupd unit): the recursive descent (delete_helper) is an uninterpreted function of the root page and the key; a page built in this transaction is a function of its page number; push_all_except_deleted pushes the pairs of the leaf without the deleted ones; the helper's root / allocator references are held by value (rule RX drops the `*` of `*self.root`)", "G1 (guardmut unit): a leaf page is the sequence of pairs it holds (LeafAccessor reads it, LeafBuilder::build allocates a page holding exactly the pairs pushed), a branch page the log of child pointers written into it; the guard's root reference is held by value", "S1 (search unit): K::compare is a function of the two byte strings and a total order (reflexive, antisymmetric, transitive) - that it is the value order of each built-in key type is property C15; the n-th key / child of a page is an uninterpreted function of the page (key_unchecked, key, child_page are assumed to return it; the byte layout is checked by the bounded Kani harnesses C04-L1/L2); the keys of a page are strictly increasing (precondition `sorted`, property C10)"],
     "explanation": "Kernel = every lookup, insert and range scan reaches its entry through two binary searches, verified on their REAL loops for every page size and every total order: LeafAccessor::position reports a match only at an entry whose key equals the query and otherwise returns the insertion point (all keys before it smaller, all keys from it on larger), find_key finds a key exactly when the page holds it; BranchAccessor::child_for_key picks the child whose key interval contains the query (all separators before it smaller than the query, the separator at it greater or equal); the REAL bound test of the mutable range cursor (entry_in_range) yields an entry only while its key is on the inner side of the bound parked by the other end (Included / Excluded / Unbounded, both directions). (I) the REAL MutateHelper::insert: a new key raises the stored entry count by exactly one, an overwrite leaves it unchanged and reports the previous value; the first insert into an empty tree builds a one-pair leaf with count 1; when the root page split the new root is a fresh branch over exactly the two halves and their separator; (D) the REAL MutateHelper::delete_key / finish_deletion: removing from an empty tree or a key that is absent leaves the root - and its checksum - untouched; removing a present key stores a root whose entry count is exactly one lower, naming the page the descent produced (DEFERRED checksum) or the untouched remaining child (its retained checksum), and no root at all when the tree was emptied; pop_leaf_entry (pop_first / pop_last) and delete_leaf_entries (retain / extract) carry the change up the recorded path from the leaf's parent to the root, one level at a time in that order, and lower the count by exactly the number of entries removed; (G) the REAL page-rebuild path of AccessGuardMut::insert (get_mut / entry API, new value does not fit): the rebuilt leaf holds the old pairs with exactly this entry's value replaced, the pointer redirected to it is the parent's pointer at the position recorded for the parent (or the tree root), with a deferred checksum, and the old leaf is released. Plus the leaf page as a sorted array (bounded model checking of the real writer, reader and binary search against the sequence of pairs handed to the builder) and the complete split/merge threshold arithmetic.",
-    "not_decided": "every tree operation of btree_mutator.rs: split, merge, rebalance, in-place leaf mutation (probed, too expensive), the cursor state machines around the verified bound test, multi-transaction histories",
+    "not_decided": "every tree operation of btree_mutator.rs: split, merge, rebalance, in-place leaf mutation beyond the bounded native check X-leafmut (LeafMutator is byte shuffling with copy_within: probed with Verus and CBMC, too expensive for both), the cursor state machines around the verified bound test, multi-transaction histories",
 }
 P["C06"] = {
     "level": "proof",
